@@ -20,14 +20,14 @@ def scenarios(tier):
     menu = [("C10CHECK",),
             ("TRAVEL", "I1"), ("TRAVEL", "O2"), ("PRINT", "I2"), ("WIPE", "I1"), ("RETRACT",), ("RECOVER",), ("RAW", "M117 x"),
             ("RAW", "M204 S5"), ("AT", "ExcludeRegion", "disable"), ("INCH",), ("REL",), ("ZMOVE", 2),
-            ("FWRETRACT",), ("RAW", "G1 F600"),
+            ("FWRETRACT",), ("RAW", "G1 F600"), ("RAW", "M206 X15"), ("RAW", "G92 X20 Y5"),
             ("EV", "PRINT_CANCELLED"), ("EV", "PRINT_DONE"), ("NEWPRINT",),
             ("API", "add", "b", "cIn", False), ("API", "upd", "r", "rBig", False),
             ("SET", "clearRegionsAfterPrintFinishes", True), ("SET", "clearRegionsAfterPrintFinishes", False),
             ("SETEXT", (("M204", "merge"),)), ("SETEXT", (("G4", "exclude"), ("M117", "last"), ("M204", "merge")))]
     cfg = dict(prop="C10", monitors=(), regions=["R"], emax=1, key_depth=False, maxregions=2,
                probe_depth=2 if q else 3, exit="M400\n", enter="M300 S1\n")
-    small = [m for m in menu if m[0] in ("C10CHECK", "TRAVEL", "RETRACT", "RECOVER", "AT", "INCH", "REL", "EV") or m == ("RAW", "M117 x")]
+    small = [m for m in menu if m[0] in ("C10CHECK", "TRAVEL", "RETRACT", "RECOVER", "AT", "INCH", "REL", "EV") or m in (("RAW", "M117 x"), ("RAW", "M206 X15"))]
     return [Scenario("c10-restart", World, cfg, menu, max_depth=5 if q else 7, max_states=40000 if q else 1500000),
             Scenario("c10-restart-sd", World, dict(cfg, c10_payload={"origin": "sdcard", "name": "f.gco", "path": "f.gco"}),
                      small, max_depth=5 if q else 7, max_states=40000 if q else 1500000,
